@@ -7,6 +7,8 @@ PROP = dict(
                  env=dict(quick=dict(VERIF_CASES=8), thorough=dict(VERIF_CASES=300))),
             dict(name="genesis-roundtrip-lend", go_test="TestC20Lend", runner="C20",
                  env=dict(quick=dict(VERIF_CASES=8), thorough=dict(VERIF_CASES=200))),
+            dict(name="genesis-roundtrip-rich", go_test="TestC20Rich", runner="C20",
+                 env=dict(quick=dict(VERIF_CASES=16), thorough=dict(VERIF_CASES=600))),
         ],
         rule="genesis-roundtrip: case = one generated scenario (1-5 vaults on two extended pairs with a draw-down fee, optional close of the newest / a random vault, "
              "0-4 lockers with optional close, collector lookup + auction mapping, with or without the secondary asset registered as genesis token "
